@@ -5,6 +5,8 @@ import random
 import sys
 import time
 
+sys.set_int_max_str_digits(0)
+
 from vf.boot import VERIF
 
 EXIT_HELD, EXIT_VIOLATION, EXIT_INCONCLUSIVE = 0, 1, 2
@@ -84,7 +86,7 @@ class Run:
             self.samples.append(jsonable(s))
 
     def violation(self, mech, what, **detail):
-        self.violations.append(dict(mech=mech, what=what, detail=jsonable(detail)))
+        self.violations.append(dict(mech=mech, what=str(what)[:600], detail=jsonable(detail)))
 
     def inconc(self, reason):
         self.inconclusive.append(reason)
@@ -161,6 +163,8 @@ class Run:
                 if n >= 25:
                     break
             print("%s: %d violation(s) not covered by known_findings.json" % (self.prop, len(unknown)))
+            for r in self.inconclusive[:3]:
+                print("  (also inconclusive: %s)" % str(r)[:300])
             return EXIT_VIOLATION
         if self.inconclusive:
             for r in self.inconclusive[:10]:
